@@ -149,9 +149,40 @@ func (t *Term) Contains(pred func(*Term) bool) bool {
 }
 
 // StripConv removes value-preserving wrappers (conversions, assertions).
+// constLike: a term fixed at program start (literals and pure library calls on literals).
+func constLike(t *Term) bool {
+	switch t.Op {
+	case OpConst:
+		return true
+	case OpConv:
+		return len(t.Args) == 1 && constLike(t.Args[0])
+	case OpCall:
+		if strings.Contains(t.Name, "#") {
+			return false
+		}
+		for _, a := range t.Args {
+			if !constLike(a) {
+				return false
+			}
+		}
+		return strings.HasPrefix(t.Name, "(crypto.Hash).") || strings.HasPrefix(t.Name, "crypto/") || strings.HasPrefix(t.Name, "strings.") || strings.HasPrefix(t.Name, "encoding/hex.")
+	}
+	return false
+}
+
 func StripConv(t *Term) *Term {
-	for t != nil && (t.Op == OpConv || (t.Op == OpAssert && !strings.HasSuffix(t.Name, ",ok"))) && len(t.Args) == 1 {
-		t = t.Args[0]
+	for t != nil && len(t.Args) == 1 {
+		switch {
+		case t.Op == OpConv, t.Op == OpAssert && !strings.HasSuffix(t.Name, ",ok"):
+			t = t.Args[0]
+			continue
+		case t.Op == OpGlobal && constLike(t.Args[0]):
+			// a package variable written once, by its initialiser, with a value fixed
+			// at program start (`var size = crypto.SHA384.Size()`) reads as that value
+			t = t.Args[0]
+			continue
+		}
+		break
 	}
 	return t
 }
@@ -262,6 +293,14 @@ func normalize(t *Term) *Term {
 				if n, ok := negCmp[x.Name]; ok {
 					return normalize(&Term{Op: OpBin, Name: n, Args: []*Term{x.Args[0], x.Args[1]}, Pos: x.Pos, Typ: x.Typ, Val: x.Val})
 				}
+			}
+			// De Morgan, so that a negated disjunction splits into separate gates
+			if x.Op == OpBin && (x.Name == "||" || x.Name == "&&") {
+				op := "&&"
+				if x.Name == "&&" {
+					op = "||"
+				}
+				return normalize(&Term{Op: OpBin, Name: op, Args: []*Term{Not(x.Args[0]), Not(x.Args[1])}, Pos: t.Pos, Typ: t.Typ, Val: t.Val})
 			}
 			if x.IsConst("true") {
 				return C("false")
@@ -389,6 +428,21 @@ func normalize(t *Term) *Term {
 		if t.Args[0].IsConst("false") {
 			return t.Args[2]
 		}
+		// short-circuit booleans kept as data: c ? true : x is c || x, and so on
+		c, x, y := t.Args[0], t.Args[1], t.Args[2]
+		mkb := func(op string, a, b *Term) *Term {
+			return normalize(&Term{Op: OpBin, Name: op, Args: []*Term{a, b}, Pos: t.Pos, Typ: t.Typ, Val: t.Val})
+		}
+		switch {
+		case x.IsConst("true"):
+			return mkb("||", c, y)
+		case y.IsConst("false"):
+			return mkb("&&", c, x)
+		case x.IsConst("false"):
+			return mkb("&&", Not(c), y)
+		case y.IsConst("true"):
+			return mkb("||", Not(c), x)
+		}
 	}
 	return t
 }
@@ -481,4 +535,32 @@ func Subst(t *Term, f func(*Term) *Term) *Term {
 		return t
 	}
 	return normalize(&Term{Op: t.Op, Name: t.Name, Args: args, Pos: t.Pos, Typ: t.Typ, Val: t.Val, Ctx: t.Ctx})
+}
+
+// intTerm: the term is known to be integer-valued.
+func intTerm(t *Term) bool {
+	t = StripConv(t)
+	if t.Op == OpLen || t.Op == OpIter {
+		return true
+	}
+	if t.Typ != nil {
+		if b, ok := t.Typ.Underlying().(*types.Basic); ok {
+			return b.Info()&types.IsInteger != 0
+		}
+	}
+	return false
+}
+
+// nonNegTerm: the term is a length or has an unsigned integer type.
+func nonNegTerm(t *Term) bool {
+	t = StripConv(t)
+	if t.Op == OpLen {
+		return true
+	}
+	if t.Typ != nil {
+		if b, ok := t.Typ.Underlying().(*types.Basic); ok {
+			return b.Info()&types.IsUnsigned != 0
+		}
+	}
+	return false
 }
